@@ -22,7 +22,11 @@ type Recorder struct {
 	Writes       int
 	Body         bytes.Buffer
 	HeaderAtSend http.Header
+	FailAfter    int // > 0: Write fails once this many bytes have been accepted (a broken connection)
+	Failed       bool
 }
+
+var errBrokenPipe = fmt.Errorf("write: broken pipe (injected)")
 
 func NewRecorder() *Recorder { return &Recorder{Hdr: http.Header{}} }
 
@@ -40,6 +44,15 @@ func (r *Recorder) Write(b []byte) (int, error) {
 		r.HeaderAtSend = r.Hdr.Clone()
 	}
 	r.Writes++
+	if r.FailAfter > 0 && r.Body.Len()+len(b) > r.FailAfter {
+		n := r.FailAfter - r.Body.Len()
+		if n < 0 {
+			n = 0
+		}
+		r.Body.Write(b[:n])
+		r.Failed = true
+		return n, errBrokenPipe
+	}
 	return r.Body.Write(b)
 }
 
